@@ -163,12 +163,12 @@ type C06Inter struct {
 }
 
 type C06Scn struct {
-	Inter *C06Inter `json:"inter,omitempty"`
-	MaxEntries    int     `json:"max_entries"`
-	MaxQueryBytes int     `json:"max_query_bytes"`
-	Normalize     bool    `json:"normalize"`
-	NilCache      bool    `json:"nil_cache,omitempty"`
-	Ops           []C06Op `json:"ops"`
+	Inter         *C06Inter `json:"inter,omitempty"`
+	MaxEntries    int       `json:"max_entries"`
+	MaxQueryBytes int       `json:"max_query_bytes"`
+	Normalize     bool      `json:"normalize"`
+	NilCache      bool      `json:"nil_cache,omitempty"`
+	Ops           []C06Op   `json:"ops"`
 }
 
 type c06 struct{}
